@@ -9,6 +9,10 @@
 (*            into an empty window: k of them were admitted                *)
 (*            (throttling rule: n requests, one per millisecond for one    *)
 (*            second after an idle time; k = admissions inside the second) *)
+(*   reload low, high, lw, hw, cb      the rule is replaced (LoadRules /    *)
+(*            LoadRulesOfResource); the next probes are judged against the *)
+(*            new rule, monotonicity restarts (an identical rule changes   *)
+(*            nothing)                                                     *)
 (* VERDICT: the envelope (end points, range, monotone between consecutive  *)
 (* probes).  CONFORMANCE (DRIFT line, never a verdict): k = floor of the   *)
 (* exact rational interpolation, k or k - 1 accepted where the rational    *)
@@ -56,8 +60,15 @@ TProbe ==
        /\ pk' = IF sat THEN Ev.k ELSE pk
     /\ UNCHANGED <<r, g>>
 
+TReload ==
+    /\ IsEvent("reload")
+    /\ LET r2 == [low |-> Ev.low, high |-> Ev.high, lw |-> Ev.lw, hw |-> Ev.hw, cb |-> Ev.cb] IN
+       IF r2 = r THEN UNCHANGED <<r, pm, pk>>
+       ELSE r' = r2 /\ pm' = -2 /\ pk' = 0
+    /\ UNCHANGED <<g, failed, drifted>>
+
 TInit == l = 1 /\ r = [low |-> 2, high |-> 1, lw |-> 1, hw |-> 2, cb |-> 0] /\ pm = -2 /\ pk = 0 /\ g = [tr |-> 0]
          /\ failed = FALSE /\ drifted = FALSE
-TNext == TNew \/ TProbe
+TNext == TNew \/ TProbe \/ TReload
 TSpec == TInit /\ [][TNext]_tvars
 =============================================================================
